@@ -1,6 +1,6 @@
 SPECIFICATION Spec
 CONSTANTS
-  Tokens = {"IHDRa", "IHDRb", "IHDR5", "iCCP1", "iCCP2", "iCCPbad", "iCCPm1", "iCCP3", "tEXt", "IDAT", "IEND"}
+  Tokens = {"IHDRa", "IHDRb", "IHDR5", "iCCP1", "iCCP2", "iCCPbad", "iCCPm1", "iCCP3", "iCCPn79", "iCCPn80", "tEXt", "IDAT", "IEND"}
   MaxToks = 4
   CutToks = 3
 INVARIANTS TypeOK NoStall OkHasHeader StopsAtPixels EarlyExit Sane PrintCase
